@@ -180,4 +180,6 @@ class GroundedEffect:
             )
 
         for new_value in new_values:
-            state.state_fluents[new_value.untyped_representation] = new_value
+            # store a copy: the function object belongs to this effect's expression tree and is rewritten
+            # whenever the effect is applied again.
+            state.state_fluents[new_value.untyped_representation] = new_value.copy()
